@@ -21,10 +21,14 @@ DIGITS = [(48, 57)]
 HEXDIGITS = [(48, 57), (65, 70), (97, 102)]
 
 
-def fresh_str(st, name, is_str=True, nonempty=False):
-    """an opaque string: window over a fresh base"""
-    base = fresh_arr(name)
-    n = fresh_int(name + ".len")
+def fresh_str(st, name, is_str=True, nonempty=False, canonical=False):
+    """an opaque string: window over a fresh base (canonical: deterministic symbol names, same value whenever asked)"""
+    if canonical:
+        base = z3.Array(name, I, I)
+        n = z3.Int(name + ".len")
+    else:
+        base = fresh_arr(name)
+        n = fresh_int(name + ".len")
     st.assume(n >= (1 if nonempty else 0))
     p = qvar("p")
     st.assume(z3.ForAll([p], And(z3.Select(base, p) >= 0, z3.Select(base, p) <= 255)))
@@ -321,6 +325,8 @@ def m_split(ex, st, s, args, kwargs=None):
     st.assume(n >= 1, sel(plo, 0) == w.lo, sel(phi, n - 1) == w.hi,
               z3.ForAll([i], Implies(And(0 <= i, i < n), And(w.lo <= sel(plo, i), sel(plo, i) <= sel(phi, i), sel(phi, i) <= w.hi))),
               z3.ForAll([i], Implies(And(0 <= i, i < n - 1), And(sel(plo, i + 1) == sel(phi, i) + m, occurs_at(w, sel(phi, i), sep)))),
+              # same fact, phrased on the successor so that it is triggered by a term plo[i]
+              z3.ForAll([i], Implies(And(0 < i, i < n), And(sel(plo, i) == sel(phi, i - 1) + m, occurs_at(w, sel(phi, i - 1), sep)))),
               # no separator occurrence starts inside a part (for the last part: none that fits)
               z3.ForAll([i, p], Implies(And(0 <= i, i < n - 1, sel(plo, i) <= p, p < sel(phi, i)), Not(occurs_at(w, p, sep)))),
               z3.ForAll([p], Implies(And(sel(plo, n - 1) <= p, p + m <= w.hi), Not(occurs_at(w, p, sep)))))
